@@ -219,7 +219,9 @@ func (r *rewriter) orderedMap(e ast.Expr) bool {
 }
 
 // for k, v := range m { body }
-//   =>  { _m := m; for _, k := range SortedKeys(_m) { v, _ok := _m[k]; if !_ok { continue }; body } }
+//
+//	=>  { _m := m; for _, k := range SortedKeys(_m) { v, _ok := _m[k]; if !_ok { continue }; body } }
+//
 // Go leaves the iteration order of a map unspecified; fixing one legal order makes executions
 // reproducible (entries deleted before they are reached are skipped, as the spec requires).
 func (r *rewriter) rewriteRangeMap(n *ast.RangeStmt) ast.Stmt {
